@@ -206,7 +206,7 @@ def rule_product_by_order(rep: Report, repo: Repo):
             return ordering in c[1]
         heff = herm and diag
         want = (1, 1) if (heff and ordering == "<") else (0, 0) if (heff and ordering == ">") else (1, 0)
-        for o in outcomes(loop.body, scope, env=dict(env0), atom=atom):
+        for o in outcomes(loop.body, scope, env=dict(env0), atom=atom, fold_ifs=False):
             n_paths += 1
             if o.kind not in ("fall", "continue"):
                 raise AnalysisError(R, f"loop body path ends with {o.kind}")
